@@ -11,6 +11,10 @@ import math
 MAXSTEPS = 400000
 
 
+import os as _os, time as _time
+EVAL_BUDGET_S = int(_os.environ.get("NX_EVAL_BUDGET", "90"))
+
+
 class Undecided(Exception):
     pass
 
@@ -131,7 +135,23 @@ def rs_minus(a, b, ty):
 # ---------------------------------------------------------------- cases: canonical piecewise terms
 # ("cases", scrutinee, ty, ((rangeset, term), ...)) — rangesets partition the scrutinee type's domain,
 # arms sorted by first range, adjacent arms with equal terms merged.
+def _unwiden(scrut, ty):
+    """a case split on a value-preserving widening cast of x is a case split on x itself (ranges cut to x's type)"""
+    while isinstance(scrut, tuple) and scrut and scrut[0] == "cast" and len(scrut) == 4 and scrut[3] == ty and scrut[2] in INT_TYS and ty in INT_TYS:
+        flo, fhi = ty_range(scrut[2])
+        tlo, thi = ty_range(ty)
+        if not (tlo <= flo and fhi <= thi):
+            break
+        scrut, ty = scrut[1], scrut[2]
+    return scrut, ty
+
+
 def mk_cases(scrut, ty, arms):
+    s2, t2 = _unwiden(scrut, ty)
+    if t2 != ty:
+        dom = (ty_range(t2),)
+        arms = tuple((rs_inter(rs_norm(rs), dom), t) for rs, t in arms)
+        scrut, ty = s2, t2
     # flatten nested cases on the same scrutinee
     flat = []
     for rs, t in arms:
@@ -170,6 +190,10 @@ def mk_cases(scrut, ty, arms):
 
 def mk_in(scrut, ty, rs):
     rs = rs_norm(rs)
+    s2, t2 = _unwiden(scrut, ty)
+    if t2 != ty:
+        rs = rs_inter(rs, (ty_range(t2),))
+        scrut, ty = s2, t2
     lo, hi = ty_range(ty)
     if not rs:
         return FALSE
@@ -425,6 +449,8 @@ class Evaluator:
         self.inline_depth = inline_depth
         self.opaque_local = set(opaque_local)   # local fns to keep as uninterpreted calls
         self.steps = 0
+        self._nest = 0
+        self.deadline = float("inf")
         self.asserts = []       # (fn path, assert kind, cond term, path-condition) encountered
         self.fresh = 0
         self.stop = None        # (fn path, loop head, body set, tracked locals) for eval_loop_body
@@ -433,6 +459,7 @@ class Evaluator:
         self._discr_src = {}
         self._memo = {}
         self.effects = []       # opaque calls made during evaluation (may-list, in evaluation order)
+        self.comprehend = True          # a loop that only filters/maps an iterator into a fresh Vec becomes a ('comp', ..) value
         self.summarize_loops = False   # when set, an inner loop is replaced by a havoc of the locals it assigns
         self.no_skip = set()            # loop heads that must be entered rather than summarised
 
@@ -441,8 +468,6 @@ class Evaluator:
         fn = self.prog.fn(path) if isinstance(path, str) else path
         if fn is None:
             raise Undecided("no MIR for " + str(path))
-        if depth == 0:
-            self.steps = 0
         if depth > self.inline_depth:
             raise Undecided("inline depth exceeded at " + fn.path)
         if len(args) != fn.arg_count:
@@ -450,7 +475,15 @@ class Evaluator:
         env = {0: ("uninit",)}
         for i, a in enumerate(args):
             env[i + 1] = a
-        return self._run(fn, 0, env, {}, depth)
+        outer = self._nest == 0
+        if outer:
+            self.steps = 0
+            self.deadline = _time.time() + EVAL_BUDGET_S
+        self._nest += 1
+        try:
+            return self._run(fn, 0, env, {}, depth)
+        finally:
+            self._nest -= 1
 
     def eval_loop_body(self, fn, head, body, tracked, env0=None):
         """one iteration of a natural loop, symbolically: evaluates from the loop head with every local bound to
@@ -459,9 +492,14 @@ class Evaluator:
         if env0:
             env.update(env0)
         self.stop = (fn.path, head, set(body), tuple(tracked))
+        if self._nest == 0:
+            self.steps = 0
+            self.deadline = _time.time() + EVAL_BUDGET_S
+        self._nest += 1
         try:
             return self._run(fn, head, env, {}, 0)
         finally:
+            self._nest -= 1
             self.stop = None
 
     def eval_self_fn(self, path):
@@ -698,6 +736,8 @@ class Evaluator:
             self.steps += 1
             if self.steps > MAXSTEPS:
                 raise Undecided("step budget exceeded in " + fn.path)
+            if (self.steps & 63) == 0 and _time.time() > getattr(self, "deadline", float("inf")):
+                raise Undecided("time budget (%ds) exceeded in %s: the value grows too large to enumerate" % (EVAL_BUDGET_S, fn.path))
             mkey = None
             if len(fn.pred_map()[bb]) > 1 and self.stop is None:
                 # blocks reachable along several paths: reuse the result for an identical live environment
@@ -728,6 +768,8 @@ class Evaluator:
                 self.steps += 1
                 if self.steps > MAXSTEPS:
                     raise Undecided("step budget exceeded in " + fn.path)
+                if (self.steps & 63) == 0 and _time.time() > getattr(self, "deadline", float("inf")):
+                    raise Undecided("time budget (%ds) exceeded in %s: the value grows too large to enumerate" % (EVAL_BUDGET_S, fn.path))
             first = False
             if self.stop is not None and fn.path == self.stop[0]:
                 if bb == self.stop[1] and visits.get(bb, 0) >= 1:
@@ -747,6 +789,12 @@ class Evaluator:
                     finally:
                         self.stop = saved
                     return ("exit", bb, val)
+            if self.comprehend and visits.get(bb, 0) == 0 and not (self.stop is not None and fn.path == self.stop[0] and bb == self.stop[1]):
+                lp0 = fn.loops()
+                if bb in lp0 and bb not in self.no_skip and not is_await_loop(fn, lp0[bb]):
+                    r = self._comprehend(fn, bb, lp0[bb], env, visits, depth, until)
+                    if r is not None:
+                        return r
             if self.summarize_loops and visits.get(bb, 0) == 0:
                 lp = fn.loops()
                 if bb in lp and bb not in self.no_skip and not is_await_loop(fn, lp[bb]) and not (self.stop is not None and fn.path == self.stop[0] and bb == self.stop[1]):
@@ -799,6 +847,107 @@ class Evaluator:
                 bb = t["target"]
                 continue
             raise Undecided("terminator %s in %s" % (k, fn.path))
+
+    def _comprehend(self, fn, head, body, env, visits, depth, until):
+        """`for x in src { ..; if c(x) { acc.push(e(x)) } }` with a fresh accumulator: the loop is the comprehension
+        acc = [e(x) for x in src if c(x)], written ('comp', src, g) with g an Option-valued term over ELEM (Some(e) when
+        the element is kept). Returns the evaluation continued after the loop, or None when the loop is not of that shape
+        (it is then unrolled / summarised as before)."""
+        try:
+            return self._comprehend2(fn, head, body, env, visits, depth, until)
+        except Undecided:
+            return None
+
+    def _comprehend2(self, fn, head, body, env, visits, depth, until):
+        ne = normal_exit(fn, head, body)
+        if ne is None:
+            return None
+        live = fn.live_in()[head]
+        asg = set()
+        for b in body:
+            blk = fn.blocks[b]
+            for st in blk["stmts"]:
+                if st["s"] == "assign":
+                    asg.add(st["dst"]["l"])
+                    if st.get("rv") == "ref" and st.get("bk", "").startswith("Mut") and "*" not in st["pl"]["p"]:
+                        asg.add(st["pl"]["l"])
+            tt = blk["term"]
+            if tt["t"] == "call":
+                asg.add(tt["dest"]["l"])
+        tracked = sorted(l for l in asg if l in env and l != 0 and l in live)
+        if len(tracked) != 2:
+            return None
+        it_l = [l for l in tracked if "Iter" in fn.local_ty(l) or "iter::" in fn.local_ty(l) or fn.local_ty(l).startswith("core::ops::range::Range")]
+        acc_l = [l for l in tracked if fn.local_ty(l).startswith("alloc::vec::Vec<")]
+        if len(it_l) != 1 or len(acc_l) != 1:
+            return None
+        I, A = it_l[0], acc_l[0]
+        a0 = env[A]
+        if not (a0[0] == "call" and a0[1] in ("alloc::vec::Vec::<T>::new", "alloc::vec::Vec::<T>::with_capacity")):
+            return None
+        src = env[I]
+        while True:
+            if src[0] == "iter":
+                src = src[1]
+            elif src[0] == "call" and src[1].endswith("::into_iter") and len(src[2]) == 1:
+                src = src[2][0]
+            else:
+                break
+        sub = Evaluator(self.prog, inline_depth=self.inline_depth, opaque_local=self.opaque_local)
+        sub.models = self.models
+        sub.summarize_loops = self.summarize_loops
+        env0 = {l: v for l, v in env.items() if l not in asg}
+        tree = sub.eval_loop_body(fn, head, set(body), tracked, env0)
+        LI, LA = P("L%d" % I), P("L%d" % A)
+        if not (tree[0] == "cases" and tree[1][0] == "discr" and tree[1][1][0] == "call" and tree[1][1][1].endswith("::next") and tree[1][1][2] == (LI,)
+                and len(tree[3]) == 2):
+            return None
+        nxt = tree[1][1]
+        some_arm = [x for rs, x in tree[3] if any(lo <= 1 <= hi for lo, hi in rs) and not any(lo <= 0 <= hi for lo, hi in rs)]
+        none_arm = [x for rs, x in tree[3] if any(lo <= 0 <= hi for lo, hi in rs) and not any(lo <= 1 <= hi for lo, hi in rs)]
+        if len(some_arm) != 1 or len(none_arm) != 1 or not (none_arm[0][0] == "exit" and none_arm[0][1] == ne):
+            return None
+        x = ("vfld", nxt, "Some", "0")
+        ia, ii = tracked.index(A), tracked.index(I)
+        bad = []
+
+        def leaf(t):
+            if not (isinstance(t, tuple) and t and t[0] == "next"):
+                bad.append(t)
+                return NONE
+            vals = t[1]
+            iv, av = vals[ii], vals[ia]
+            if not (iv[0] == "mutated" and iv[1].endswith("::next") and iv[3] == (LI,)):
+                bad.append(t)
+                return NONE
+            def acc(v):
+                if v == LA:
+                    return NONE
+                if v[0] == "mutated" and v[1].endswith("::push") and v[2] == 0 and v[3][0] == LA:
+                    return some(v[3][1])
+                bad.append(v)
+                return NONE
+            return map_leaves(av, acc)
+        g = map_leaves(some_arm[0], leaf)
+        if bad:
+            return None
+        g = rebuild(g, {x: ELEM})
+        # the kept/dropped decision and the element may depend on the element only
+        for at in atoms(g):
+            if at[0] == "p" and (at == LI or at == LA or (at[1].startswith("L") and at[1][1:].isdigit() and int(at[1][1:]) in asg)):
+                return None
+        if _mentions(g, nxt):
+            return None
+        env = dict(env)
+        for l in asg:
+            cur = env.get(l)
+            if cur is not None and cur[0] == "mref":
+                continue
+            env[l] = ("after_loop", head, l, cur if cur is not None else ("uninit",))
+        env[A] = ("comp", src, g)
+        v2 = dict(visits)
+        v2[head] = 1
+        return self._run(fn, ne, env, v2, depth, until)
 
     def _skip_loop(self, fn, head, body, env, visits, depth, until):
         """summarise a (symbolic) inner loop: every local assigned inside it becomes an opaque atom, and evaluation
@@ -1253,6 +1402,23 @@ def _m_is_positive(ev, a, t, d):
     return binop("Gt", a[0], C(0, ty), ty) if ty else None
 
 
+def _m_slice_get(ev, a, t, d):
+    """`slice.get(i)` on an explicit array (a lookup table): the element for each in-range index, None beyond"""
+    arr, i = a
+    if arr[0] != "array" or len(arr[1]) > 4096:
+        return None
+    ity = (t or {}).get("targs") and [x["d"]["s"] for x in t["targs"]]
+    if ity and not any(x == "usize" for x in ity):
+        return None                 # a range index (sub-slice), not an element lookup
+    if is_c(i) and isinstance(i[1], int):
+        return some(arr[1][i[1]]) if 0 <= i[1] < len(arr[1]) else NONE
+    if i[0] == "adt":
+        return None
+    arms = tuple((((k, k),), some(x)) for k, x in enumerate(arr[1]))
+    arms += ((rs_compl(tuple((k, k) for k in range(len(arr[1]))), "usize"), NONE),)
+    return mk_cases(i, "usize", arms)
+
+
 def _m_opt_branch(ev, a, t, d):
     return opt_match(a[0], lambda x: cf_continue(x), lambda: cf_break(NONE))
 
@@ -1378,8 +1544,8 @@ def _collect(ev, it, d):
             break
         elif cur[0] in ("cases", "ite"):
             return map_leaves(cur, lambda x: _collect(ev, x, d))
-        elif cur[0] in ("call", "p", "fld", "vfld"):
-            src = cur           # an opaque iterator value (e.g. str::split(..)) is its own source
+        elif cur[0] in ("call", "p", "fld", "vfld") or (cur[0] == "adt" and cur[1].startswith("core::ops::range::Range")):
+            src = cur           # an opaque iterator value (e.g. str::split(..)) or a range is its own source
             break
         else:
             raise Undecided("collect over unsupported iterator %r" % (cur[0],))
@@ -1626,6 +1792,7 @@ DEFAULT_MODELS = {
     "core::num::<impl i16>::abs": _m_i_abs,
     "std::f64::<impl f64>::powf": _m_powf,
     "core::slice::<impl [T]>::iter": _m_iter,
+    "core::slice::<impl [T]>::get": _m_slice_get,
     "core::slice::<impl [T]>::chunks_exact": _m_chunks,
     "core::iter::traits::iterator::Iterator::copied": _ident,
     "core::iter::traits::iterator::Iterator::cloned": _ident,
@@ -1885,6 +2052,34 @@ def bits_of(t, width_hint=None):
     return None
 
 
+def _mentions(t, sub):
+    if t == sub:
+        return True
+    if isinstance(t, tuple):
+        return any(_mentions(x, sub) for x in t if isinstance(x, tuple))
+    return False
+
+
+def comp_of(t):
+    """('comp', src, g) of an iterator-chain closed form ('seq', src, ops, body): g is Some(body) when every filter holds
+    and every filter_map yields Some, None otherwise. Chains with other adaptors have no comprehension form (None)."""
+    if not (isinstance(t, tuple) and t):
+        return None
+    if t[0] == "comp":
+        return t
+    if t[0] != "seq":
+        return None
+    g = some(t[3])
+    for kind, _body, arg in reversed(t[2]):
+        if kind == "filter":
+            g = ite(arg, g, NONE)
+        elif kind == "filtermap":
+            g = opt_match(arg, lambda v, g=g: g, lambda: NONE)
+        else:
+            return None
+    return ("comp", t[1], g)
+
+
 def sem_eq(a, b):
     """equality of two terms up to the value-preserving rewrites of norm_arith and, for integer expressions in the
     mask/shift fragment, equal per-bit provenance; recursive through equal case structure and aggregates"""
@@ -1892,6 +2087,10 @@ def sem_eq(a, b):
         return True
     if not (isinstance(a, tuple) and isinstance(b, tuple) and a and b):
         return False
+    if a[0] in ("seq", "comp") and b[0] in ("seq", "comp"):
+        ca, cb = comp_of(a), comp_of(b)
+        if ca is not None and cb is not None:
+            return sem_eq(ca[1], cb[1]) and sem_eq(ca[2], cb[2])
     na, nb = norm_arith(a), norm_arith(b)
     if na == nb:
         return True
